@@ -216,8 +216,17 @@ def families_b(tier):
                 ("shift_rot", ((2, 3),), 1), ("arith", ((2, 3),), 1), ("mem", ((8, 16), (8, 16, 32)), 1),
                 ("wide", ((32, 64, 128),), 1), ("hostile", ((1, 2, 3, 8),), 1), ("assign", ((1, 2, 3, 4, 8, 16),), 1)]
         return out
-    out = list(simplattice.families("thorough"))
-    out += [("hostile", ((1, 2, 3, 4, 8, 64),), 2), ("assign", ((1, 2, 3, 4, 8, 16, 32, 64),), 2)]
+    # (the full C01 thorough lattice, 12.9M expressions, was run once: all identical, 15 min on the loaded machine;
+    #  the translator is a structural recursion, so the thorough tier keeps every family at reduced multiplicity)
+    out = [("d1", ((1, 2, 3, 4),), 4)]
+    out += [("d2spine", ((1, 2, 3), 1, True, 1, k, 16), 1) for k in range(16)]
+    out += [("d2spine", ((1, 2, 3), 2, True, 2, k, 8), 1) for k in range(8)]
+    out += [("d2spine", ((1, 2, 3), 3, True, 2, k, 8), 1) for k in range(8)]
+    out += [("d2spine", ((1, 2, 3, 4), 4, True, 1, k, 8), 1) for k in range(8)]
+    out += [("cc_flags", ((1, 2), 2), 8), ("ext_cmp", ((1, 2, 3, 4, 5, 6, 8),), 8), ("compose", ((1, 2, 3, 4),), 8),
+            ("shift_rot", ((2, 3, 4, 5, 8),), 8), ("arith", ((2, 3, 4, 5),), 8), ("mem", ((8, 16), (8, 16, 32, 64)), 1),
+            ("wide", ((31, 32, 33, 63, 64, 65, 127, 128),), 4),
+            ("hostile", ((1, 2, 3, 4, 8, 64),), 2), ("assign", ((1, 2, 3, 4, 8, 16, 32, 64),), 2)]
     return out
 
 
